@@ -5,6 +5,7 @@ import (
 	"bytes"
 	"io"
 	"net/http"
+	"os"
 	"strconv"
 )
 
@@ -365,5 +366,102 @@ func verifHarness_C09_second_response_in_pooled_object() {
 		}
 	}
 	verifAssertD(pos == len(w), "nothing-after-the-response", "pooled-object")
+	verifAssert(false, "witness")
+}
+
+// the usual net/http order for trailers: declared before the body, VALUE set
+// after the body has been written (and possibly flushed)
+func verifHarness_C09_trailer_value_set_after_body() {
+	conn := &verifNetConn{failAt: -1}
+	e := verifHTTPEngine()
+	p := verifServerParser(conn, e, nil)
+	req := &http.Request{Method: "GET", Proto: "HTTP/1.1", ProtoMajor: 1, ProtoMinor: 1, Header: http.Header{}}
+	res := NewResponse(p, req)
+	res.Header().Set("Date", "x")
+	res.Header().Set("Content-Type", "t")
+	res.Header().Set("Trailer", "X-T")
+	n := 1 + verifChoose("body_len", 3)
+	body := verifBytes("body", n)
+	_, _ = res.Write(append([]byte(nil), body...))
+	if verifChoose("flush", 2) == 1 {
+		res.Flush()
+	}
+	tv := []byte([]string{"tv", "x", "late value"}[verifChoose("trailer_value", 3)])
+	res.Header().Set("X-T", string(tv))
+	(&ServerProcessor{}).flushResponse(p, res)
+	w := conn.wire()
+	d := verifDecodeResponse(w)
+	if !d.ok {
+		verifNote("decode failed: " + d.why)
+		verifNoteInt("wirelen", len(w))
+	}
+	verifAssertD(d.ok && d.consumed == len(w), "wire-decodes-as-one-response", "late-trailer")
+	if d.ok {
+		verifAssertD(len(d.body) == n && verifEqBytes(d.body, body), "body-is-concatenation-of-writes", "late-trailer")
+		ok := len(d.trailers) == 1 && d.trailers[0].k == "X-T" && verifEqString(d.trailers[0].v, string(tv))
+		verifAssertD(ok, "declared-trailer-delivered", "value-set-after-body")
+	}
+	verifAssert(false, "witness")
+}
+
+// Flush in the middle of an answer to an HTTP/1.0 request that declares no
+// length (no chunking available): whatever Flush does, the wire must still be
+// one response carrying all the written bytes.
+func verifHarness_C09_http10_flush_without_length() {
+	conn := &verifNetConn{failAt: -1}
+	e := verifHTTPEngine()
+	p := verifServerParser(conn, e, nil)
+	req := &http.Request{Method: "GET", Proto: "HTTP/1.0", ProtoMajor: 1, ProtoMinor: 0, Header: http.Header{}}
+	res := NewResponse(p, req)
+	res.Header().Set("Date", "x")
+	res.Header().Set("Content-Type", "t")
+	a := verifBytes("a", 1+verifChoose("len_a", 2))
+	b := verifBytes("b", 1+verifChoose("len_b", 2))
+	_, _ = res.Write(append([]byte(nil), a...))
+	res.Flush()
+	_, _ = res.Write(append([]byte(nil), b...))
+	(&ServerProcessor{}).flushResponse(p, res)
+	w := conn.wire()
+	d := verifDecodeResponse(w)
+	verifAssertD(d.ok, "wire-decodes-as-one-response", "http10-flush")
+	if d.ok {
+		verifAssertD(d.consumed == len(w), "nothing-after-the-response", "http10-flush")
+		want := append(append([]byte(nil), a...), b...)
+		verifAssertD(len(d.body) == len(want) && verifEqBytes(d.body, want), "body-is-concatenation-of-writes", "http10-flush")
+	}
+	verifAssert(false, "witness")
+}
+
+// ReadFrom with a file on a connection that can send files (what
+// http.ServeContent / io.Copy(w, file) reach): declared length, unsent head.
+type verifSendfileConn struct {
+	verifNetConn
+	sent int64
+}
+
+func (c *verifSendfileConn) Sendfile(f *os.File, remain int64) (int64, error) {
+	c.sent += remain
+	return remain, nil
+}
+
+func verifHarness_C09_readfrom_file() {
+	conn := &verifSendfileConn{}
+	conn.failAt = -1
+	e := verifHTTPEngine()
+	p := verifServerParser(conn, e, nil)
+	req := &http.Request{Method: "GET", Proto: "HTTP/1.1", ProtoMajor: 1, ProtoMinor: 1, Header: http.Header{}}
+	res := NewResponse(p, req)
+	res.Header().Set("Date", "x")
+	res.Header().Set("Content-Length", "7")
+	var f *os.File // the connection above never looks into it
+	panics0 := verifPanicCount()
+	var err error
+	if verifChoose("limited", 2) == 1 {
+		_, err = res.ReadFrom(&io.LimitedReader{R: f, N: 7})
+	} else {
+		_, err = res.ReadFrom(f)
+	}
+	verifAssertD(verifPanicCount() == panics0, "no-panic-in-readfrom", "file")
+	verifAssertD(err == nil, "successful-write-reports-its-size", "readfrom-file")
 	verifAssert(false, "witness")
 }
